@@ -10,9 +10,9 @@ SPEC = {
             "for every e in [-300,300] and 8 mantissas, empty containers at every position, chains of depth 200 (all enumerated, "
             "seed-independent) + seeded random trees (depth <= 6, <= 40 nodes; quick 2000, thorough 100000), each serialised "
             "with all 64 SerializeOption masks and parsed in default mode and, where mask is a subset of FORMAT|SORT_DICT_KEYS, "
-            "strict mode. One evaluation = one (tree, mask, mode) round trip, one copy-monitor run, or one json.loads comparison. "
+            "strict mode. One evaluation = one (tree, mask, mode) round trip, one copy-monitor run, one assignment onto a pre-loaded destination, or one json.loads comparison. "
             "distinct_nontrivial = distinct classes among: option mask x mode (opt3f:default), generated leaf/key/container shape "
-            "(gen:float:exp+, gen:key:high), copy-monitor mutation kind, CPython comparison per standard mask x root kind.",
+            "(gen:float:exp+, gen:key:high), copy-monitor mutation kind, assignment destination kind x source kind, CPython comparison per standard mask x root kind.",
     "level_text": "Exploration: the real code runs on every generated tree with every option mask; the systematic part "
                   "enumerates each byte value, each power-of-two integer boundary and each decimal exponent, the rest is seeded "
                   "sampling. Values outside the statement (NaN, infinities, denormals) are never generated.",
@@ -27,7 +27,12 @@ SPEC = {
                          "gen:float:exp+:integral-mantissa", "gen:float:negzero", "gen:int:min", "gen:int:max", "gen:string:high",
                          "gen:string:ctrl", "gen:string:del", "gen:string:backslash", "gen:key:high", "gen:key:ctrl",
                          "gen:key:empty", "gen:list:empty:nested", "gen:dict:empty:nested", "gen:list:empty:root",
-                         "gen:dict:empty:root", "copy:mutate:*", "copy:dict", "copy:list", "py:std:opt00:*", "py:std:opt04:*",
+                         "gen:dict:empty:root", "copy:mutate:*", "copy:dict", "copy:list", "assign:onto-null:*", "assign:onto-string:*",
+                         "assign:onto-list-shorter:list", "assign:onto-list-longer:*", "assign:onto-dict-disjoint-keys:dict",
+                         "assign:onto-dict-overlapping-keys:dict", "assign:onto-dict-superset-keys:dict",
+                         "assign:onto-dict-subset-keys:dict", "assign:onto-dict-same-keys:dict", "assign:onto-deep-tree:*",
+                         "assign:onto-polluted-same-shape:dict", "assign:onto-polluted-same-shape:list",
+                         "assign:onto-previous-tree:*", "py:std:opt00:*", "py:std:opt04:*",
                          "py:std:opt08:*", "py:std:opt0c:*"],
     "exhaustive": {"quick": False, "thorough": False},
     "exhaustive_note": "enumerated completely: all 64 option masks per tree; all 256 byte values as string and as key; "
